@@ -960,6 +960,8 @@ func execKex(o hx.Op) string {
 					rr.str()
 					sig = append(wStr([]byte(algo+"x")), wStr(rr.str())...)
 				}
+			case "plain": // a host certificate checked under the plain algorithm name of its key
+				valgo = strings.TrimSuffix(algo, "-cert-v01@openssh.com")
 			case "wrongkey":
 				k2 := keys[1][keyFormat(algo)]
 				blob, vpub = k2.signer.PublicKey().Marshal(), k2.pub
@@ -1120,7 +1122,7 @@ func gen(g *hx.Gen) {
 	if g.N > 0 {
 		rounds = g.N
 	}
-	sigTampers := []string{"-", "fliph", "flipsig", "trail", "trunc", "empty", "fmt", "wrongkey"}
+	sigTampers := []string{"-", "fliph", "flipsig", "trail", "trunc", "empty", "fmt", "wrongkey", "plain"}
 	magTampers := []string{"vc", "vs", "ic", "is"}
 	for round := 0; round < rounds; round++ {
 		for _, m := range methods {
